@@ -525,11 +525,18 @@ def _fit_hourly(case, col, stats):
         df = datasets.hourly_frame(days=365, solar=case.get("solar", False))
         df.iloc[100:103, df.columns.get_loc("observed")] = np.nan
         df.iloc[2000:2002, df.columns.get_loc("temperature")] = np.nan
+        if "ghi" in df.columns:
+            # gaps in the irradiance feed at hours whose meter and temperature readings are present: filled by the data class,
+            # flagged interpolated_ghi, and therefore not "non-interpolated hours"
+            for a in (3000, 4200, 5100, 6000, 7000):
+                df.iloc[a:a + 40, df.columns.get_loc("ghi")] = np.nan
         return df
 
     S = hset.HourlySolarSettings if case.get("solar") else hset.HourlyNonSolarSettings
     raw = data()
     measured = (raw["observed"].notna() & raw["temperature"].notna()).to_numpy()
+    if "ghi" in raw.columns:
+        measured = measured & raw["ghi"].notna().to_numpy()
     sub = dict(case)
     m = em.HourlyModel(settings=S()).fit(em.HourlyBaselineData(data(), is_electricity_data=True))
     t1 = _hourly_truth(m, em, data, measured, col, sub, stats, "default thresholds")
@@ -723,8 +730,8 @@ def fit_cases(tier):
     out = []
     for cvt, pnt in itertools.product(["lo", "hi"], repeat=2):
         out.append({"kind": "fit", "family": "hourly", "cv_thr": cvt, "pn_thr": pnt})
+    out.append({"kind": "fit", "family": "hourly", "cv_thr": "lo", "pn_thr": "lo", "solar": True})
     if tier == "thorough":
-        out.append({"kind": "fit", "family": "hourly", "cv_thr": "lo", "pn_thr": "lo", "solar": True})
         out.append({"kind": "fit", "family": "hourly", "cv_thr": "hi", "pn_thr": "lo", "solar": True})
     for fam in ("billing", "daily"):
         for thr in ("lo", "hi"):
